@@ -339,6 +339,21 @@ pub fn window_edge_streams(rng: &mut Rng) -> Vec<(String, Vec<u8>)> {
             v.push((format!("window-edge/d{}/{}", w, if nearer { "second-candidate" } else { "only-candidate" }), encode_fixed(&text, &toks, block)));
         }
     }
+    // the other edge: a reference to the very first byte of the stream (distance = position)
+    for nearer in [true, false] {
+        let mlen = 8usize;
+        let c = 300 + rng.below(200) as usize;
+        let mut text: Vec<u8> = (0..c + mlen + 30).map(|_| b'0' + rng.below(64) as u8).collect();
+        let marker = b"AbCdEfGh".to_vec();
+        text[0..mlen].copy_from_slice(&marker);
+        if nearer { text[48..48 + mlen].copy_from_slice(&marker); }
+        text[c..c + mlen].copy_from_slice(&marker);
+        text[mlen] = b'!'; text[c - 1] = b'%'; text[c + mlen] = b'?';
+        let mut toks: Vec<(usize, usize)> = (0..c).map(|_| (1, 0)).collect();
+        toks.push((mlen, c));
+        toks.extend((0..text.len() - c - mlen).map(|_| (1usize, 0usize)));
+        v.push((format!("window-edge/to-start/{}", if nearer { "second-candidate" } else { "only-candidate" }), encode_fixed(&text, &toks, usize::MAX)));
+    }
     v
 }
 
